@@ -6,6 +6,9 @@ import os
 from . import lang, model
 
 
+PREFIX_ATTRIBUTION = ("F9",)
+
+
 def norm(v):
     if isinstance(v, float):
         if math.isnan(v):
@@ -62,8 +65,8 @@ def real_run(prog, rows, agg, fname="p.csv", policy=("collect",), method="collec
     return out
 
 
-def model_trace(prog, rows, emulate=()):
-    m = model.Model(prog, rows, emulate=emulate)
+def model_trace(prog, rows, emulate=(), policy=None):
+    m = model.Model(prog, rows, emulate=emulate, policy=policy)
     tr = m.run()
     return m, tr
 
@@ -114,16 +117,18 @@ def returned_lines_problem(real, mtrace, rows):
     return None
 
 
-def decide(prog, rows, agg, what, known_switches=(), extra_check=None):
+def decide(prog, rows, agg, what, known_switches=(), extra_check=None, policy=None):
+    """policy: None -> real run under ['collect'] and any error is a divergence;
+    a list -> real run under that policy, the model applies it to documented errors"""
     """-> (status, info)
     status: held | undecided | violation | known ; info: reason / witness"""
     try:
-        m, mtrace = model_trace(prog, rows)
+        m, mtrace = model_trace(prog, rows, policy=policy)
     except model.Unspec as e:
         return "undecided", "unspec:" + str(e)[:40]
     except model.ExpErr as e:
         return "undecided", "error-expected"
-    real = real_run(prog, rows, agg)
+    real = real_run(prog, rows, agg, policy=("collect",) if policy is None else tuple(policy))
     try:
         os.unlink("p.csv")
     except OSError:
@@ -132,14 +137,14 @@ def decide(prog, rows, agg, what, known_switches=(), extra_check=None):
     if real["exc"]:
         witness["exception"] = real["exc"]
         return "violation", ("exception", witness)
-    if real["errors"]:
+    if real["errors"] and policy is None:
         witness["errors"] = real["errors"][:3]
         # a known defect may have steered the real run into territory where an error is the documented
         # outcome (e.g. lt() true on equal operands executes a right-hand side the model never reaches)
         cand = [k for k in m.reached if k in known_switches]
         if cand:
             try:
-                model_trace(prog, rows, emulate=cand)
+                model_trace(prog, rows, emulate=cand, policy=policy)
             except (model.Unspec, model.ExpErr):
                 return "known", (sorted(cand)[0], witness)
         return "violation", ("unexpected-error", witness)
@@ -157,7 +162,7 @@ def decide(prog, rows, agg, what, known_switches=(), extra_check=None):
         if not cand:
             break
         try:
-            m2, mtrace2 = model_trace(prog, rows, emulate=cand)
+            m2, mtrace2 = model_trace(prog, rows, emulate=cand, policy=policy)
             d2 = compare(real, mtrace2, what)
             if d2 is None and "match" in what:
                 d2 = returned_lines_problem(real, mtrace2, rows)
@@ -174,4 +179,19 @@ def decide(prog, rows, agg, what, known_switches=(), extra_check=None):
         except (model.Unspec, model.ExpErr):
             # the known defect steers the run into a corner the docs leave undefined: attributed
             return "known", (sorted(cand)[0], witness)
+    # mechanisms whose exact emulation is not always possible (nested look-aheads): everything before the
+    # line where the mechanism is first reached must still agree; from that line on the trace is polluted
+    for k in PREFIX_ATTRIBUTION:
+        if k in known_switches and k in m.reached_at:
+            cut = m.reached_at[k]
+            import copy as _copy
+
+            real_prefix = dict(real)
+            rec2 = _copy.copy(real["rec"])
+            rec2.lines = [ev for ev in real["rec"].lines if ev["pln"] < cut]
+            real_prefix["rec"] = rec2
+            dp = compare(real_prefix, [mt for mt in mtrace if mt["pln"] < cut], what)
+            if dp is None:
+                witness["attribution"] = f"prefix before line {cut} agrees; {k} reached at line {cut}"
+                return "known", (k, witness)
     return "violation", (d["kind"], witness)
